@@ -20,6 +20,7 @@ RULE = ("EVSE class x parameters x pilot placed at every decision boundary +- {0
 ASSUMPTIONS = ["theorems are over R (exact arithmetic); implementation computes pilot+-atol in doubles",
                "EVSE max_rate=inf (the constructor default) is represented by a large finite rate in the model runs"]
 F = fractions.Fraction
+BIG = 10.0 ** 12          # stands for max_rate=inf (the constructor default) on both sides
 ATOL = F(1, 1000)
 OFFS = [F(0), F(1, 10**6), F(5, 10**4), F(999, 10**6), F(1001, 10**6), F(2, 1000)]
 
@@ -33,7 +34,11 @@ def kind_coq(kind):
 
 
 def thresholds(kind):
-    """pilot values at which the decision flips (exact rationals)"""
+    """pilot values at which the decision flips (exact rationals); BIG stands for inf: no threshold there"""
+    return [t for t in _thresholds(kind) if t < F(BIG) / 2]
+
+
+def _thresholds(kind):
     if kind[0] == "C":
         return [F(kind[1]) - ATOL, F(kind[2]) + ATOL]
     if kind[0] == "D":
@@ -44,18 +49,50 @@ def thresholds(kind):
     return out
 
 
-def make_evse(kind):
+def fin(x):
+    """inf (EVSE default max_rate) is represented by BIG on the model side"""
+    x = float(x)
+    return BIG if x == float("inf") else x
+
+
+def make_evse(kind, variant=0):
+    """variant selects legal-but-less-common ways of building the same station"""
+    import numpy as np
     from acnportal.acnsim.models import EVSE, DeadbandEVSE, FiniteRatesEVSE
     if kind[0] == "C":
-        return EVSE("S", max_rate=kind[2], min_rate=kind[1])
-    if kind[0] == "D":
-        return DeadbandEVSE("S", deadband_end=kind[1], max_rate=kind[2])
-    rates = list(kind[1])
-    evse = FiniteRatesEVSE("S", rates)
-    # the caller goes on using its own list: the EVSE must not alias it
-    rates.append(123.0)
-    if len(rates) > 1:
-        rates.pop(0)
+        if kind[2] >= BIG:
+            evse = EVSE("S", min_rate=kind[1])          # default max_rate = inf
+        elif variant % 3 == 1:
+            evse = EVSE("S", max_rate=np.float64(kind[2]), min_rate=np.float64(kind[1]))
+        else:
+            evse = EVSE("S", max_rate=kind[2], min_rate=kind[1])
+    elif kind[0] == "D":
+        if kind[2] >= BIG:
+            evse = DeadbandEVSE("S", deadband_end=kind[1])
+        else:
+            evse = DeadbandEVSE("S", deadband_end=kind[1], max_rate=kind[2])
+    else:
+        rates = list(kind[1])
+        if variant % 4 == 1:
+            arg = tuple(rates)
+        elif variant % 4 == 2:
+            arg = np.array(rates, dtype=float) if rates else []
+        elif variant % 4 == 3 and all(float(r).is_integer() for r in rates):
+            arg = [int(r) for r in rates]
+        else:
+            if variant % 8 < 4:
+                # an already normalised list (0 first, strictly increasing) describing the same set
+                rates = sorted(set(float(r) for r in rates) | {0.0})
+            arg = rates
+        evse = FiniteRatesEVSE("S", arg)
+        # the caller goes on using its own list: the EVSE must not alias it
+        if arg is rates:
+            rates.append(123.0)
+            if len(rates) > 1:
+                rates.pop(0)
+    if variant % 5 == 4:
+        # a station that went through a JSON round trip must behave like the original
+        evse = type(evse).from_json(evse.to_json())
     return evse
 
 
@@ -70,13 +107,15 @@ class _NullAlg:
         return {}
 
 
-def run_impl(kind, cur, has_ev, pilot, voltage, period, newcomer_offset=0, rereg=False, sibling=False):
+def run_impl(kind, cur, has_ev, pilot, voltage, period, newcomer_offset=0, rereg=False, sibling=False,
+             variant=0, pilot2=None, via_network=False, ptype=0):
     from datetime import datetime
     from acnportal.acnsim.models import EV, Battery
     from acnportal.acnsim.models.evse import InvalidRateError, StationOccupiedError
     from acnportal.acnsim.network import ChargingNetwork
     from acnportal.acnsim import Simulator, Interface, EventQueue
-    evse = make_evse(kind)
+    import numpy as np
+    evse = make_evse(kind, variant)
     net = ChargingNetwork()
     if rereg:
         # the station id was first registered with another EVSE; what schedulers are told must
@@ -110,31 +149,52 @@ def run_impl(kind, cur, has_ev, pilot, voltage, period, newcomer_offset=0, rereg
         net.plugin(ev)
     evse._current_pilot = cur
     before = (ev.energy_delivered, ev._battery._current_charge) if ev else None
-    err = None
-    try:
-        evse.set_pilot(pilot, voltage, period)
-    except InvalidRateError:
-        err = "InvalidRateError"
-    except Exception as e:  # noqa
-        err = type(e).__name__
+    def send(p):
+        """one pilot to station S, either directly or through ChargingNetwork.update_pilots"""
+        pv = [p, np.float64(p), (int(p) if float(p).is_integer() else p), np.float32(p) if float(np.float32(p)) == p else p][ptype % 4]
+        e = None
+        try:
+            if via_network:
+                col = np.zeros((len(net.station_ids), 1))
+                # other stations keep the pilot they already have (0 for a fresh sibling)
+                for j, sid in enumerate(net.station_ids):
+                    col[j, 0] = pv if sid == "S" else net._EVSEs[sid].current_pilot
+                net.update_pilots(col, 0, period)
+            else:
+                evse.set_pilot(pv, voltage, period)
+        except InvalidRateError:
+            e = "InvalidRateError"
+        except Exception as ex:  # noqa
+            e = type(ex).__name__
+        return e
+
+    err = send(pilot)
     after = (ev.energy_delivered, ev._battery._current_charge) if ev else None
-    out = dict(accepted=err is None, error=err, current_pilot=float(evse.current_pilot), charge_calls=calls,
+    out = dict(accepted=err is None, error=err, current_pilot=float(evse.current_pilot), charge_calls=list(calls),
                ev_touched=(before != after))
+    if pilot2 is not None:
+        n0 = len(calls)
+        mid = (ev.energy_delivered, ev._battery._current_charge) if ev else None
+        err2 = send(pilot2)
+        end = (ev.energy_delivered, ev._battery._current_charge) if ev else None
+        out.update(accepted2=err2 is None, error2=err2, current_pilot2=float(evse.current_pilot),
+                   charge_calls2=calls[n0:], ev_touched2=(mid != end))
     # what schedulers are told: through the network info store and the Interface
     sim = Simulator(net, _NullAlg(), EventQueue(), datetime(2020, 1, 1), period=period, verbose=False)
     iface = Interface(sim)
     info = iface.infrastructure_info()
     si = info.get_station_index("S")
     cont, allow = iface.allowable_pilot_signals("S")
-    out.update(max=float(iface.max_pilot_signal("S")), min=float(iface.min_pilot_signal("S")),
-               allow=[float(x) for x in allow], is_cont=bool(cont))
+    out.update(max=fin(iface.max_pilot_signal("S")), min=fin(iface.min_pilot_signal("S")),
+               allow=[fin(x) for x in allow], is_cont=bool(cont))
     adv = [evse.max_rate, evse.min_rate] + list(evse.allowable_pilot_signals) + \
           [float(info.max_pilot[si]), float(info.min_pilot[si])] + [float(x) for x in info.allowable_pilots[si]]
+    adv = [a for a in adv if a != float("inf")]
     out["advertised_accepted"] = [bool(evse._valid_rate(a)) for a in adv]
-    out["iface_matches_evse"] = (out["max"] == float(evse.max_rate) and out["min"] == float(evse.min_rate)
-                                 and out["allow"] == [float(x) for x in evse.allowable_pilot_signals]
-                                 and float(info.max_pilot[si]) == out["max"] and float(info.min_pilot[si]) == out["min"]
-                                 and [float(x) for x in info.allowable_pilots[si]] == out["allow"])
+    out["iface_matches_evse"] = (out["max"] == fin(evse.max_rate) and out["min"] == fin(evse.min_rate)
+                                 and out["allow"] == [fin(x) for x in evse.allowable_pilot_signals]
+                                 and fin(info.max_pilot[si]) == out["max"] and fin(info.min_pilot[si]) == out["min"]
+                                 and [fin(x) for x in info.allowable_pilots[si]] == out["allow"])
     # a newcomer arriving around the occupant's nominal departure, plugged in through the network
     ev2 = EV(10 + newcomer_offset, 30 + newcomer_offset, 50, "S", "sess2", Battery(100, 0, 100))
     perr = None
@@ -162,13 +222,13 @@ def rand_kind(rng):
     grid = [0, 1, 6, 8, 16, 24, 32, 40, 64]
     if t < 0.3:
         mn = rng.choice([0, 0, 1, 6, 8, 5.5])
-        mx = rng.choice([16, 32, 32, 40, 80, 6, 8])
+        mx = rng.choice([16, 32, 32, 40, 80, 6, 8, BIG])
         if rng.random() < 0.9 and mn > mx:
             mn, mx = mx, mn
         return ("C", mn, mx)
     if t < 0.6:
         de = rng.choice([6, 6, 8, 1, 0.5, 12])
-        mx = rng.choice([16, 32, 32, 40, 80, 6, 8])
+        mx = rng.choice([16, 32, 32, 40, 80, 6, 8, BIG])
         if rng.random() < 0.9 and de > mx:
             de, mx = mx, de
         return ("D", de, mx)
@@ -189,7 +249,7 @@ def gen_cases(rng, n, tier):
         for _ in range(6):
             if rng.random() < 0.75 and ths:
                 base = rng.choice(ths)
-                pilot = float(base + rng.choice([1, -1]) * rng.choice(OFFS))
+                pilot = float(base + rng.choice([1, -1]) * (rng.choice(OFFS[1:]) if rng.random() < 0.92 else OFFS[0]))
             else:
                 pilot = rng.choice([rng.uniform(-2, 70), float(rng.randint(-1, 64)), rng.randint(0, 40)])
             has_ev = rng.random() < 0.5
@@ -200,16 +260,32 @@ def gen_cases(rng, n, tier):
             off = rng.choice([-5, -1, 0, 0, 1, 5])
             rereg = rng.random() < 0.2
             sibling = rng.random() < 0.3
-            impl = run_impl(kind, cur, has_ev, pilot, voltage, period, off, rereg, sibling)
+            variant = rng.randint(0, 19)
+            via_network = (not sibling) and rng.random() < 0.3    # a sibling may not accept the 0 A it would be sent
+            ptype = rng.randint(0, 3)
+            pilot2 = None
+            if rng.random() < 0.5:
+                if rng.random() < 0.6 and ths:
+                    pilot2 = float(rng.choice(ths) + rng.choice([1, -1]) * (rng.choice(OFFS[1:]) if rng.random() < 0.92 else OFFS[0]))
+                else:
+                    pilot2 = float(rng.choice([0, 6, 8, 16, 32, 33, -1, rng.uniform(-2, 70)]))
+            amb = amb or (pilot2 is not None and any(abs(F(pilot2) - t) < F(1, 10**9) for t in ths))
+            impl = run_impl(kind, cur, has_ev, pilot, voltage, period, off, rereg, sibling, variant, pilot2, via_network, ptype)
+            p2_coq = "None" if pilot2 is None else "(Some %s)" % q(pilot2)
             coq = ("{| c_kind := %s; c_cur := %s; c_ev := %s; c_pilot := %s; c_voltage := %s; c_period := %s;\n"
                    "   i_accepted := %s; i_error := %s; i_current_pilot := %s; i_charge_calls := %s;\n"
-                   "   i_max := %s; i_min := %s; i_allow := %s; i_is_cont := %s; i_plugin_err := %s; i_ev_after_plugin := %s |}") % (
+                   "   i_max := %s; i_min := %s; i_allow := %s; i_is_cont := %s; i_plugin_err := %s; i_ev_after_plugin := %s;\n"
+                   "   c_pilot2 := %s; i_accepted2 := %s; i_error2 := %s; i_current_pilot2 := %s; i_charge_calls2 := %s |}") % (
                 kind_coq(kind), q(cur), "(Some 7%Z)" if has_ev else "None", q(pilot), q(voltage), q(period),
                 coq_bool(impl["accepted"]), coq_opt(impl["error"], coq_str), q(impl["current_pilot"]),
                 coq_list([coq_list([q(x) for x in c]) for c in impl["charge_calls"]]),
                 q(impl["max"]), q(impl["min"]), coq_list([q(x) for x in impl["allow"]]), coq_bool(impl["is_cont"]),
-                coq_opt(impl["plugin_err"], coq_str), coq_opt(impl["ev_after_plugin"], lambda v: "%d%%Z" % v))
-            inp = dict(kind=kind, cur=cur, has_ev=has_ev, pilot=pilot, voltage=voltage, period=period, newcomer_offset=off, rereg=rereg, sibling=sibling)
+                coq_opt(impl["plugin_err"], coq_str), coq_opt(impl["ev_after_plugin"], lambda v: "%d%%Z" % v),
+                p2_coq, coq_bool(impl.get("accepted2", True)), coq_opt(impl.get("error2"), coq_str),
+                q(impl.get("current_pilot2", 0)),
+                coq_list([coq_list([q(x) for x in c]) for c in impl.get("charge_calls2", [])]))
+            inp = dict(kind=kind, cur=cur, has_ev=has_ev, pilot=pilot, voltage=voltage, period=period, newcomer_offset=off, rereg=rereg, sibling=sibling,
+                       variant=variant, pilot2=pilot2, via_network=via_network, ptype=ptype)
             cases.append(dict(input=inp, impl=impl, coq=coq, ambiguous=amb, kind="%s/%s" % (kind[0], "ev" if has_ev else "noev"),
                               sig=[kind, pilot, has_ev], nontrivial=True))
     return cases[:n]
@@ -238,6 +314,22 @@ def monitor(case):
             return "rejected pilot raised %s" % i["error"]
         if i["current_pilot"] != inp["cur"] or i["charge_calls"] or i["ev_touched"]:
             return "rejected pilot changed state"
+    if inp.get("pilot2") is not None:
+        p2 = F(inp["pilot2"])
+        if kind[0] == "C":
+            want2 = F(kind[1]) - ATOL <= p2 <= F(kind[2]) + ATOL
+        elif kind[0] == "D":
+            want2 = abs(p2) <= ATOL or (F(kind[1]) - ATOL <= p2 <= F(kind[2]) + ATOL)
+        else:
+            want2 = any(abs(p2 - F(r)) <= ATOL for r in list(kind[1]) + [0])
+        if i["accepted2"] != want2:
+            return "second pilot %r %s although it is %s the allowable set" % (
+                inp["pilot2"], "accepted" if i["accepted2"] else "rejected", "outside" if not want2 else "inside")
+        if not i["accepted2"]:
+            if i["error2"] != "InvalidRateError":
+                return "rejected second pilot raised %s" % i["error2"]
+            if i["current_pilot2"] != i["current_pilot"] or i["charge_calls2"] or i["ev_touched2"]:
+                return "rejected second pilot changed state (station pilot %r -> %r)" % (i["current_pilot"], i["current_pilot2"])
     if ordered and not all(i["advertised_accepted"]):
         return "an advertised value is not accepted"
     if not i["iface_matches_evse"]:
@@ -264,5 +356,6 @@ def search(rng, budget_s, broken):
 def replay(w):
     inp = w["case"]
     kind = tuple(tuple(x) if isinstance(x, list) else x for x in inp["kind"])
-    impl = run_impl(kind, inp["cur"], inp["has_ev"], inp["pilot"], inp["voltage"], inp["period"], inp.get("newcomer_offset", 0), inp.get("rereg", False), inp.get("sibling", False))
+    impl = run_impl(kind, inp["cur"], inp["has_ev"], inp["pilot"], inp["voltage"], inp["period"], inp.get("newcomer_offset", 0), inp.get("rereg", False), inp.get("sibling", False),
+                    inp.get("variant", 0), inp.get("pilot2"), inp.get("via_network", False), inp.get("ptype", 0))
     return monitor(dict(input=dict(inp, kind=kind), impl=impl))
